@@ -61,7 +61,9 @@ func hgCoqStr(s string) (string, bool) {
 	return "\"" + strings.ReplaceAll(s, "\"", "\"\"") + "\"", true
 }
 
-func hgComment(s string) string { return strings.ReplaceAll(strings.ReplaceAll(s, "(*", "( *"), "*)", "* )") }
+func hgComment(s string) string {
+	return strings.ReplaceAll(strings.ReplaceAll(s, "(*", "( *"), "*)", "* )")
+}
 
 func hgIdent(s string) string {
 	var sb strings.Builder
